@@ -165,7 +165,9 @@ def apply_op(layout, spec):
     if op == "getitem_nothing":
         return layout.getitem_nothing()
     if op == "purelist":
-        return (layout.purelist_parameter("__array__"), layout.purelist_parameter("__record__"), len(layout))
+        # parameters seen through the list structure, the length, and the depth queries (purelist_depth, minmax_depth, branch_depth)
+        return (layout.purelist_parameter("__array__"), layout.purelist_parameter("__record__"), len(layout),
+                layout.purelist_depth, list(layout.minmax_depth), list(layout.branch_depth))
     raise ValueError(op)
 
 
